@@ -15,6 +15,11 @@ pub struct World {
     /// Heights the current lifetime has been told (DESIGN.md section 6).
     pub told_low: u32,
     pub told_all: u32,
+    /// `told_low` / `told_all` as of the start of the current step (heights
+    /// delivered within the step may or may not have been processed yet when
+    /// another task of the same step reads the height).
+    pub told_low_step_start: u32,
+    pub told_all_step_start: u32,
     pub getinfo_replies_this_lifetime: u32,
     /// Injected wall-clock skew in seconds (sum of clock jumps).
     pub skew_s: i64,
